@@ -188,6 +188,20 @@ def steady(ctx, K):
             ctx.fail("C19.O1", f"steady debouncer accepts a press without recording its time (path [{pathdesc(p)}])", site=site, key="C19.O1|nowrite")
         else:
             ctx.ok("C19.O1", f"path [{pathdesc(p)}] -> {r}")
+    # Toggle(joystick, button, debounce_period) must sample through a steady debouncer built from its own arguments
+    itw = Interp(ctx.program)
+    joy = Ext("joystick", "user", role="instance")
+    btn = Sym("button", "num", uid=0)
+    tg = itw.call(K, [joy, btn, P], {})
+    n0 = len(itw.trace)
+    L2 = Sym("latest", "num", uid=0)
+    owners = [v for v in tg.fields.values() if hasattr(v, "self_obj") and isinstance(getattr(v, "self_obj"), Obj)]
+    wired = False
+    for bm in owners:
+        o = bm.self_obj
+        vals = list(o.fields.values())
+        wired = wired or (any(v is joy for v in vals) and any(v is btn for v in vals) and any(_lin_eq(v, P) for v in vals if not isinstance(v, (Ext, bool)) and v is not None))
+    ctx.require(wired, "C19.O1", "Toggle(debounce_period=P) samples through a steady debouncer on its joystick/button with period P", "Toggle(joystick, button, debounce_period) does not sample its own button through a steady debouncer with that period", site=site, key="C19.O1|wiring")
     if af:
         w = writers_of(SD, af)
         ctx.require(w <= {"__init__", "get"}, "C19.O1", f"press time written only by {sorted(w)}", f"the steady debouncer's press time is also written by {sorted(w - {'__init__', 'get'})}", site=site, key="C19.O1|writers")
